@@ -474,8 +474,11 @@ impl Engine for C07 {
         let corpus = small_corpus(env);
         let mut docs = Vec::new();
         for _ in 0..n_docs {
-            let d = match w.below(17) {
+            let d = match w.below(21) {
                 16 => Doc::from_str(&docgen::intl_doc(&mut w)),
+                // (documents with state to leak - templates, random draws, accumulators - stay
+                // as frequent as they were before the other families were added)
+                17 | 18 | 19 => Doc::from_str(&docgen::stateful_doc(&mut w)),
                 0 | 1 => Doc::from_str(&docgen::failing_doc(&mut w).0),
                 13 => Doc::from_str(&docgen::crlf_doc(&mut w)),
                 14 => Doc::from_str(&docgen::limit_hitting_doc(&mut w)),
